@@ -138,6 +138,26 @@ Theorem C18_depth_leak_refuted : forall maxd : nat, 0 < maxd ->
 Proof. exact depth_leak_refuted_lemma. Qed.
 Print Assumptions C18_depth_leak_refuted.
 
+(* Discarded bodies (unknown method, error reply, stale reply): the discard consumes the
+   value's extent in the framing model exactly as a typed read does (it is a value slot of
+   C18_frames, whatever the value's shape) and, being a swallow, cannot fail: a connection
+   whose typed bodies fit their destinations never enters the sticky error state, whatever
+   the shapes of the discarded ones. *)
+Theorem C18_discard : forall (msgs : list (bodymode * bodyinfo)) (i : nat),
+  Forall (fun mb => fst mb = BTyped -> fits_dest (snd mb) = true) msgs ->
+  conn_bodies discard_via_iface msgs i = None.
+Proof. exact discard_lemma. Qed.
+Print Assumptions C18_discard.
+
+(* the defect class "discard = Decode into a throw-away interface{}" (seeded C18-4-2): a
+   body that is fine for its own type but is no interface{} value kills the connection *)
+Theorem C18_discard_via_iface_refuted :
+  exists msgs : list (bodymode * bodyinfo),
+    Forall (fun mb => fst mb = BTyped -> fits_dest (snd mb) = true) msgs /\
+    conn_bodies true msgs 0 = Some 1.
+Proof. exact discard_refuted_lemma. Qed.
+Print Assumptions C18_discard_via_iface_refuted.
+
 (* Close is idempotent: same state, same return value; the connection is closed once *)
 Theorem C18_close : forall c : codec,
   fst (close (fst (close c))) = fst (close c) /\
